@@ -38,6 +38,7 @@ var c14Exceptions = []errException{
 	{"(*fileBufferPool).PutBuffer", "*", "dropped", "cleanup of a temporary spill file after its content was consumed"},
 	{"(*rangeColumnChunk).Pages", "(Pages).Close", "dropped", "closing the cursor on the error path; the seek error is what is reported"},
 	{"(*reader).Reset", "(Rows).Close", "dropped", "Reset has no error result; read-side cursor"},
+	{"(*reader).init", "(Rows).Close", "dropped", "init has no error result; the rows of the row group that is being replaced are discarded unread (fix of F60), read-side cursor"},
 	{"Read", "(*GenericReader).Close", "dropped", "read-side close after all rows were read; the read error, if any, is what is returned"},
 	{"newRowGroupRows", "(*rowGroupRows).Close", "dropped", "finalizer: no caller to report to"},
 	{"AsyncPages", "(*asyncPages).Close", "dropped", "finalizer: no caller to report to"},
